@@ -169,6 +169,29 @@ def run_program_rows(ctx, bt, n):
                 return
             for key, msg in v:
                 ctx.violation("C01/" + key + (":root-bankrupt" if b.strategy.bankrupt else ""), msg, rd)
+            # the position rows a strategy hands out for its subtree: per name, what the securities of that name below it recorded
+            try:
+                import numpy as np
+                root = b.strategy
+                pos = root.positions
+                secs = [m for m in root.members if isinstance(m, bt.core.SecurityBase)]
+                for nm in sorted({m.name for m in secs}):
+                    if nm not in pos.columns:
+                        continue
+                    got = np.asarray(pos[nm].values, dtype=float)
+                    want = np.zeros(len(got))
+                    for m in secs:
+                        if m.name == nm:
+                            want = want + np.nan_to_num(np.asarray(m._positions.values[:len(got)], dtype=float))
+                    ctx.count("program-rows:strategy-position-columns")
+                    bad = [i for i in range(len(got)) if abs(np.nan_to_num(got[i]) - want[i]) > 1e-9 * max(1.0, abs(want[i]))]
+                    if bad:
+                        i = bad[0]
+                        ctx.violation("C01/row-position:strategy-frame", "%s.positions[%s] on date#%d is %r, the %d securities of that name below it recorded %r in total"
+                                      % (root.name, nm, i, got[i], sum(1 for m in secs if m.name == nm), want[i]), rd)
+                        break
+            except Exception as e:  # noqa
+                ctx.count("program-rows:positions-read-raised:" + E.classify_exc(e))
         run_programs(ctx, bt, n, checker)
         del found[:]
 
